@@ -33,6 +33,271 @@ def unq (s : String) : String := if s == "-" then "" else s
 def astExpect : String :=
   "closure-adds=1 defer-close-first=true err-assign=4 removes=3 remove-by-key=true waits-done=true waits-ctx=true unprepared-evicts-then-retries=true"
 
+
+/-! ### session tier: observed histories of real Sessions, judged by the observable-level specification `Obs`
+
+  trace <ev> <ev> ...        → accept | reject:<index>:<event>:<clause>
+  events (no blanks inside):
+    S:<c>:<q|b>:<key>/<nvals>,...        call c starts (query / batch), entries
+    P:<f>:<key>:ok/<idhex>/<ncols>       the server received PREPARE number f of <key> and answers PREPARED
+    P:<f>:<key>:err                      ... answers with an error
+    R:<key>:<f>                          flight f left the statement cache (OnEvicted)
+    X:<c>:<idhex>,...:<ok|err|un/<idhex>> the server received call c's EXECUTE / BATCH with these ids and answers
+    T:<c>:<ok|xe|ce|pe/<f>>              call c returned: success, the server's execute error, value-count error,
+                                         the failure of PREPARE f
+    H:<c>                                watchdog: call c did not return, a goroutine is blocked inside gocql
+    L:<c>                                call c keeps re-sending frames without the re-PREPAREs that UNPREPARED answers
+                                         must cause (more frames than 20 + 3·(PREPAREs + scripted losses so far))
+    C                                    panic inside gocql
+  anything else is an event the specification does not have (rejected). -/
+
+def parseEntry (w : String) : Option (String × Nat) :=
+  match w.splitOn "/" with
+  | [k, n] => n.toNat?.map fun n => (k, n)
+  | _ => none
+
+def parseXAns (ws : List String) : Option PConn.XAns :=
+  match ws with
+  | ["ok"] => some .ok
+  | ["err"] => some .err
+  | [u] => match u.splitOn "/" with
+    | ["un", id] => (parseHex id).map .unprep
+    | _ => none
+  | _ => none
+
+def parseEv (w : String) : Option (PConn.Ev String) :=
+  match w.splitOn ":" with
+  | ["S", c, kind, es] =>
+    match c.toNat?, (es.splitOn ",").mapM parseEntry with
+    | some c, some es => if kind == "q" || kind == "b" then some (.start c (kind == "b") es) else none
+    | _, _ => none
+  | ["P", f, k, r] =>
+    match f.toNat?, r.splitOn "/" with
+    | some f, ["err"] => some (.prep f k none)
+    | some f, ["ok", id, n] =>
+      match parseHex id, n.toNat? with
+      | some id, some n => some (.prep f k (some (id, n)))
+      | _, _ => none
+    | _, _ => none
+  | ["R", k, f] => f.toNat?.map fun f => .rm k f
+  | "X" :: c :: ids :: a =>
+    match c.toNat?, (ids.splitOn ",").mapM parseHex, parseXAns a with
+    | some c, some ids, some a => some (.exec c ids a)
+    | _, _, _ => none
+  | ["T", c, o] =>
+    match c.toNat?, o.splitOn "/" with
+    | some c, ["ok"] => some (.ret c .ok)
+    | some c, ["xe"] => some (.ret c .execErr)
+    | some c, ["ce"] => some (.ret c .countErr)
+    | some c, ["pe", f] => f.toNat?.map fun f => .ret c (.prepErr f)
+    | _, _ => none
+  | ["H", c] => c.toNat?.map .hang
+  | ["L", c] => c.toNat?.map .hang
+  | ["C"] => some .crash
+  | _ => none
+
+/-- which clause of the specification rejects event `e` in state `o` (diagnostics only) -/
+def why (o : Obs.OState String) : PConn.Ev String → String
+  | .start c _ es =>
+    if c ≠ o.callers.length then "call-number-out-of-order" else if es = [] then "no-entries" else "?"
+  | .prep f k _ =>
+    if o.credit k = 0 then "second-PREPARE-while-the-statement-is-cached(single-flight)"
+    else if !(o.callers.any fun cl => cl.pc.live && Obs.hasKey cl.entries k) then "PREPARE-without-an-execution-of-that-statement"
+    else match o.flights f with
+      | some fl => if fl.key ≠ k then "flight-of-another-key" else "PREPARE-number-reused"
+      | none => "?"
+  | .rm k f =>
+    match o.flights f with
+    | some fl => if fl.key ≠ k then "removed-under-another-key" else "flight-removed-twice"
+    | none => "?"
+  | .exec c ids _ =>
+    match o.callers[c]? with
+    | none => "unknown-call"
+    | some cl =>
+      if !cl.pc.live then "frame-from-a-call-that-is-not-running"
+      else if ids.length ≠ cl.entries.length then "number-of-ids"
+      else "id-not-returned-by-a-current-PREPARE-of-that-statement-on-that-host-with-that-many-columns(id-belongs/value-count)"
+  | .ret c out =>
+    match o.callers[c]? with
+    | none => "unknown-call"
+    | some cl =>
+      match out with
+      | .ok => "ok-without-an-ok-answer"
+      | .execErr => "execute-error-without-such-an-answer"
+      | .countErr => "value-count-error-without-a-mismatching-PREPARE"
+      | .prepErr f =>
+        if !cl.pc.live then "prepare-error-from-a-call-that-is-not-running"
+        else if cl.banned f then "failure-served-from-cache(reported-to-a-call-that-began-after-it-was-known)"
+        else match o.flights f with
+          | none => "failure-of-an-unknown-PREPARE"
+          | some fl =>
+            if fl.ans ≠ some none then "PREPARE-did-not-fail"
+            else if !fl.removed then "failure-reported-while-still-cached(failed-flight-published)"
+            else "failure-of-another-statement"
+  | .crash => "panic-inside-gocql"
+  | .hang _ => "execution-never-returned(every-frame-answered;goroutine-blocked-inside-gocql)"
+
+def judge (ws : List String) : String :=
+  match ws.mapM parseEv with
+  | none =>
+    match ws.find? (fun w => (parseEv w).isNone) with
+    | some w => "reject:event-outside-the-specification:" ++ w
+    | none => "reject:unparsable"
+  | some evs =>
+    match Obs.firstReject Obs.init evs 0 with
+    | none => "accept"
+    | some (i, o) =>
+      let w := ws.getD i "?"
+      if w.startsWith "L:" then s!"reject:{i}:{w}:execution-does-not-terminate(frames-re-sent-without-re-PREPARE)"
+      else s!"reject:{i}:{w}:{why o (evs.getD i .crash)}"
+
+/-! ### sequential executions: exact prediction by the connection-level machine `PConn`
+
+  seq cap=<n> ids=<stable|fresh> cols=<n0,n1,..> pf=<o|e>* xf=<o|e|f|u>* <call> <call> ...
+      call = <q|b>:<key>/<nvals>,...          key = h<i>.s<j>
+  One caller at a time. The driver's hidden actions are then determined (lookup, the flight's PREPARE, its
+  completion, observe, finish), the LRU (Model/LRU.lean) decides which entry a full cache purges, and the
+  scripted server is replayed (pf: answer to the i-th PREPARE; xf: fate of the i-th EXECUTE/BATCH that carries
+  only known ids: ok / error / forget everything on that host and answer UNPREPARED / UNPREPARED with a
+  foreign id; a frame with an id the host does not know is answered UNPREPARED(that id)).
+  Answer: the observable trace, in the words of `trace`. -/
+
+def showXAns : PConn.XAns → String
+  | .ok => "ok" | .err => "err" | .unprep id => "un/" ++ toHex id
+
+def showEvW : PConn.Ev String → String
+  | .start c b es => s!"S:{c}:{if b then "b" else "q"}:" ++ ",".intercalate (es.map fun e => s!"{e.1}/{e.2}")
+  | .prep f k (some (id, n)) => s!"P:{f}:{k}:ok/{toHex id}/{n}"
+  | .prep f k none => s!"P:{f}:{k}:err"
+  | .rm k f => s!"R:{k}:{f}"
+  | .exec c ids a => s!"X:{c}:" ++ ",".intercalate (ids.map toHex) ++ ":" ++ showXAns a
+  | .ret c .ok => s!"T:{c}:ok"
+  | .ret c .execErr => s!"T:{c}:xe"
+  | .ret c .countErr => s!"T:{c}:ce"
+  | .ret c (.prepErr f) => s!"T:{c}:pe/{f}"
+  | .crash => "C"
+  | .hang c => s!"H:{c}"
+
+def ascii (s : String) : List UInt8 := s.toList.map fun ch => UInt8.ofNat ch.toNat
+
+def pad (n width : Nat) : String :=
+  let d := toString n
+  String.ofList (List.replicate (width - d.length) '0') ++ d
+
+/-- "h<i>.s<j>" ↦ (i, j) -/
+def keyParts (k : String) : Nat × Nat :=
+  match k.splitOn "." with
+  | [h, st] => (((h.drop 1).toNat?).getD 0, ((st.drop 1).toNat?).getD 0)
+  | _ => (0, 0)
+
+structure Seq where
+  p     : PConn.State String
+  lru   : LRU.Cache String Nat
+  reg   : List (Nat × List UInt8)     -- (host, id) the server knows
+  pf    : List Char
+  xf    : List Char
+  stable : Bool
+  cols  : List Nat
+  nprep : Nat
+  out   : List (PConn.Ev String)
+  bad   : Option String
+
+def Seq.act (q : Seq) (a : PConn.Action String) : Seq :=
+  if q.bad.isSome then q else
+  match PConn.step q.p a with
+  | none => { q with bad := some "action-not-enabled" }
+  | some (p', evs) =>
+    -- whatever left the cache leaves the LRU too
+    let lru' := evs.foldl (fun l e => match e with | .rm k _ => (l.remove k).2.1 | _ => l) q.lru
+    { q with p := p', lru := lru', out := q.out ++ evs }
+
+/-- the scripted server's answer to a frame carrying `ids` on host h; returns the new registry and the rest of xf -/
+def serverX (q : Seq) (h : Nat) (ids : List (List UInt8)) : PConn.XAns × List (Nat × List UInt8) × List Char :=
+  match ids.find? (fun id => !(q.reg.any fun r => r.1 == h && r.2 == id)) with
+  | some id => (.unprep id, q.reg, q.xf)
+  | none =>
+    match q.xf with
+    | 'e' :: r => (.err, q.reg, r)
+    | 'f' :: r => (.unprep (ids.headD []), q.reg.filter (fun x => x.1 != h), r)
+    | 'u' :: r => (.unprep (ascii "other-id"), q.reg, r)
+    | _ :: r => (.ok, q.reg, r)
+    | [] => (.ok, q.reg, [])
+
+/-- one execution, start to return (fuel bounds the UNPREPARED restarts) -/
+def Seq.callLoop (c : Nat) : Nat → Seq → Seq
+  | 0, q => { q with bad := some "out-of-fuel" }
+  | fuel + 1, q =>
+    if q.bad.isSome then q else
+    match q.p.callers[c]? with
+    | none => { q with bad := some "no-caller" }
+    | some cl =>
+      match cl.pc with
+      | .returned => q
+      | .start =>
+        match cl.entries[cl.got.length]? with
+        | none => { q with bad := some "no-entry" }
+        | some e =>
+          -- execIfMissing: Get (moves to front) or Add (may purge the oldest)
+          match q.lru.get e.1 with
+          | (some _, l') => Seq.callLoop c fuel ({ q with lru := l' }.act (.lookup c))
+          | (none, _) =>
+            let f := q.p.flights.length
+            let r := q.lru.add e.1 f
+            let q1 := { q with lru := r.1 }.act (.lookup c)
+            let q2 := r.2.foldl (fun (qq : Seq) ev => qq.act (.evict ev.1)) q1
+            -- the flight's goroutine: PREPARE, answer, completion
+            let (hh, st) := keyParts e.1
+            let serial := q2.nprep
+            let ans : PConn.PAns × List (Nat × List UInt8) :=
+              match q2.pf.head? with
+              | some 'e' => (none, q2.reg)
+              | _ =>
+                let id := if q2.stable then ascii ("S" ++ pad st 2) else ascii ("s" ++ pad st 2 ++ "n" ++ pad serial 4)
+                (some (id, q2.cols.getD st 0), (hh, id) :: q2.reg)
+            let q3 := { q2 with pf := q2.pf.drop 1, reg := ans.2, nprep := serial + 1 }.act (.srvPrepare f ans.1)
+            Seq.callLoop c fuel (q3.act (.complete f))
+      | .waiting f =>
+        let (hh, _) := keyParts ((cl.entries.headD ("", 0)).1)
+        let ids := (cl.got ++ [f]).map (PConn.idOf q.p)
+        let sx := serverX q hh ids
+        let q1 := q.act (.observe c sx.1)
+        -- the server acted only if the frame was sent
+        let sent := (q1.out.drop q.out.length).any fun | .exec _ _ _ => true | _ => false
+        Seq.callLoop c fuel (if sent then { q1 with reg := sx.2.1, xf := sx.2.2 } else q1)
+      | .answered a =>
+        -- evictPreparedID looks the key up (recency!) before deciding
+        let q1 := match a with
+          | .unprep id => match PConn.unprepKey q.p cl id with
+            | some k => { q with lru := (q.lru.get k).2 }
+            | none => q
+          | _ => q
+        Seq.callLoop c fuel (q1.act (.finish c))
+
+def parseCall (w : String) : Option (Bool × List (String × Nat)) :=
+  match w.splitOn ":" with
+  | [kind, es] => ((es.splitOn ",").mapM parseEntry).map fun es => (kind == "b", es)
+  | _ => none
+
+def kvs (ws : List String) (k : String) : String :=
+  (ws.findSome? fun w => match w.splitOn "=" with
+    | [a, b] => if a == k then some b else none
+    | _ => none).getD ""
+
+def runSeq (ws : List String) : String :=
+  let calls := (ws.filter fun w => !w.contains '=').mapM parseCall
+  match calls with
+  | none => "bad-op"
+  | some calls =>
+    let q0 : Seq := { p := PConn.init, lru := LRU.new ((kvs ws "cap").toInt?.getD 0), reg := [], pf := (kvs ws "pf").toList,
+                      xf := (kvs ws "xf").toList, stable := kvs ws "ids" == "stable",
+                      cols := ((kvs ws "cols").splitOn ",").map fun x => x.toNat?.getD 0, nprep := 0, out := [], bad := none }
+    let q := calls.foldl (fun (q : Seq) cl =>
+      let c := q.p.callers.length
+      Seq.callLoop c 400 (q.act (.call cl.1 cl.2))) q0
+    match q.bad with
+    | some b => "stuck:" ++ b
+    | none => " ".intercalate (q.out.map showEvW)
+
 def step (s : St) (ws : List String) : St × String :=
   match ws with
   | ["reset", "lru", cap] => ({ s with lru := LRU.new (cap.toInt?.getD 0) }, "ok")
@@ -86,6 +351,13 @@ def step (s : St) (ws : List String) : St × String :=
     let p := s.prep
     ({ s with prep := { p with cache := { p.cache with items := [] } } }, "ev=" ++ showEvN p.cache.items.reverse)
   | ["ast", "prepareStatement"] => (s, astExpect)
+  | "trace" :: evs => (s, judge evs)
+  | "seq" :: rest => (s, runSeq rest)
+  | ["cachelen", cp, mx] =>
+    -- C14_lru_refines_map: len ≤ cap for cap > 0 (0 = unbounded)
+    match (cp.splitOn "=").getD 1 "" |>.toInt?, (mx.splitOn "=").getD 1 "" |>.toNat? with
+    | some c, some m => (s, if c ≤ 0 ∨ (m : Int) ≤ c then "accept" else s!"reject:cache-holds-{m}-of-{c}")
+    | _, _ => (s, "bad-op")
   | _ => (s, "bad-op")
 
 end Driver.C14
